@@ -66,6 +66,8 @@ def all_events():
     evs.append({"kind": "object", "ver": "2.1", "name_kind": "fresh-f+extension_name-of-c", "name": "x-verif-f", "props": "valid", "extension_name": EXTDEF["newsdo"]})
     evs.append({"kind": "observable", "ver": "2.1", "name_kind": "fresh-d+extension_name3", "name": "x-verif-d", "props": "valid", "extension_name": EXTDEF["newsdo"][:-1] + "e"})
     evs.append({"kind": "observable", "ver": "2.1", "name_kind": "fresh-e+extension_name3", "name": "x-verif-e", "props": "valid", "extension_name": EXTDEF["newsdo"][:-1] + "e"})
+    evs.append({"kind": "object", "ver": "2.1", "name_kind": "fresh-h+extension_name-without-separator", "name": "x-verif-h", "props": "valid", "extension_name": "x-verif-h-ext"})
+    evs.append({"kind": "observable", "ver": "2.1", "name_kind": "fresh-i+extension_name-without-separator", "name": "x-verif-i", "props": "valid", "extension_name": "x-verif-i-ext"})
     evs.append({"kind": "observable", "ver": "2.1", "name_kind": "fresh-g+extension_name-of-c", "name": "x-verif-g", "props": "valid", "extension_name": EXTDEF["newsdo"]})
     return evs
 
